@@ -1,5 +1,4 @@
 // ---- prelude/dbg_spec.rs : the debugger control oracle (DESIGN Appendix B), from the property statements
-spec fn add16(a: u16, b: u16) -> u16 { ((a as int + b as int) % 0x10000) as u16 }
 spec fn in_user(orig: u16, a: int) -> bool { orig as int <= a < 0xFE00 }
 
 /// RET (JMP R7), RETS (0xD with bits 11:10 = 10) and HALT (TRAP x25)
